@@ -243,8 +243,15 @@ def run(ck):
                    [f"{x['exc']} at `{x['text'][:50]}`" for x in rs], "no raise, no may-raise operation")
         ok = "msg" in show(r) and "cfdp" in show(r)
         ck.verdict("W-VAL", "MessageToUserTlv.is_reserved_cfdp_message", "answer == (at least 5 octets and the first four are 'cfdp')", [] if ok else [show(r)[:80]], show(r)[:80])
+        # a reserved message has a message-type octet behind the marker: a True answer implies at least 5 octets
+        from ..terms import truthy as _truthy
+        st, m = D.prove(list(env.facts) + [_truthy(r)], binop(">=", length(sym("msg", ty="bytes")), C(5)))
+        ck.verdict3("W-VAL", "MessageToUserTlv.is_reserved_cfdp_message", "a True answer implies the marker 'cfdp' AND a message-type octet (at least 5 octets)", st, m, "entailed by the answer")
         n0 = len(it.raises)
+        nr0 = len(it.reads)
         conv = call_method(it, env, mt, "to_reserved_msg_tlv")
+        it.reads = it.reads[nr0:]
+        D.check_xbuf(ck, it, "MessageToUserTlv.to_reserved_msg_tlv")
         rs = [x for x in it.raises[n0:] if not x["caught"] and not it.exc_matches(x["exc"], ("ValueError",))]
         ck.verdict("E-ESC", "MessageToUserTlv.to_reserved_msg_tlv", "conversion of arbitrary content raises at most ValueError", [f"{x['exc']} at `{x['text'][:40]}`" for x in rs if D.feasible(x["facts"])], "raise log")
 
